@@ -110,7 +110,7 @@ pub fn run_history(cfg: &RunCfg, h: &History) -> (Outcome, RunInfo) {
         ($facet:expr, $r:expr, $detail:expr) => {{
             let mut all_tags: Vec<&'static str> = $r.tags.clone();
             all_tags.extend(sticky.iter().copied());
-            let tail: Vec<String> = log.iter().rev().take(12).rev().cloned().map(|s| if s.len() > 160 { format!("{}…", &s[..160]) } else { s }).collect();
+            let tail: Vec<String> = log.iter().rev().take(12).rev().cloned().map(|s| if s.len() > 160 { let mut c = 160; while !s.is_char_boundary(c) { c -= 1; } format!("{}…", &s[..c]) } else { s }).collect();
             out.set_fail(
                 format!("{}|{}|{}|{}", cfg.prop, $facet, $r.kind, tagstr(&all_tags)),
                 format!("{}\n  last statements:\n    {}", $detail, tail.join("\n    ")),
